@@ -681,6 +681,12 @@ def parse_vc(path):
                     if not m2:
                         raise ExtractError(f'{path}: bad #abstract-let (need `NAME sha=<hash> = expr`): {s2}')
                     fn.setdefault('abstract', []).append((m2.group(1), m2.group(3).strip(), m2.group(2)))
+                elif s2.startswith('#abstract-stmt '):
+                    # R7: `#abstract-stmt sha=<hash> /regex/ = replacement-statement`
+                    m2 = re.match(r'#abstract-stmt\s+sha=(\w+)\s+/(.+)/\s*=\s*(.+)$', s2)
+                    if not m2:
+                        raise ExtractError(f'{path}: bad #abstract-stmt (need `sha=<hash> /regex/ = stmt`): {s2}')
+                    fn.setdefault('abstract_stmts', []).append((m2.group(2), m2.group(3).strip(), m2.group(1)))
                 elif s2.startswith('#enumerate-loop '):
                     # R2: `for (I, X) in E.iter().enumerate() { B }`  ->  index loop (n-th loop of the body)
                     fn.setdefault('enum_loops', []).append(int(s2.split()[1]))
@@ -792,6 +798,46 @@ def extract_fn(repo, spec, features):
             raise ExtractError(f'abstracted initialiser of {var} mutates self: refused')
         edits.add(T[a].start, T[e].start, ' ' + repl, 'rewrite', 'R6 abstract')
         log.append({'step': 'R6', 'line': sf.line_of(T[a].start), 'abstracted_unverified': orig[:400], 'replaced_by': repl})
+        dropped.append((T[a].start, T[e].start))
+
+    # ---- R7: expression-statement abstraction.  One expression statement `E;` anywhere in the body whose
+    # normalised text matches the regex is replaced by a call to an assumed-contract function.  Unlike R6
+    # the statement MAY mutate (that is what the assumed contract describes), so the abstraction is pinned
+    # strictly: any edit of the statement makes the unit UNDECIDED.  NOT meaning-preserving; logged and
+    # reported in the evidence as an unverified statement.
+    for (rx, repl, want_sha) in spec.get('abstract_stmts', []):
+        hits = []
+        for j in range(bo, bc):
+            t = T[j]
+            if not (t.kind == 'punct' and t.text in ';{}') or not alive(t):
+                continue
+            a = j + 1
+            if a >= bc or is_id(T[a], 'let') or (T[a].kind == 'punct' and T[a].text in ';{}'):
+                continue
+            e = a
+            ok = True
+            while e < bc and not is_p(T[e], ';'):
+                if T[e].kind == 'punct' and T[e].text in '([{':
+                    e = sf.pairs[e] + 1
+                elif T[e].kind == 'punct' and T[e].text in ')]}':
+                    ok = False
+                    break
+                else:
+                    e += 1
+            if not ok or e >= bc:
+                continue
+            txt = norm(T[a:e])
+            if re.search(rx, txt.replace(' ', '')):
+                hits.append((a, e, txt))
+        if len(hits) != 1:
+            raise ExtractError(f'lost anchor: statement /{rx}/ in {spec["name"]} ({len(hits)} matches)')
+        a, e, txt = hits[0]
+        have_sha = hashlib.sha256(txt.encode()).hexdigest()[:16]
+        if have_sha != want_sha:
+            raise ExtractError(f'abstracted statement /{rx}/ in {spec["name"]} changed (sha {have_sha}, reviewed {want_sha}): '
+                               f'the assumed contract no longer describes it')
+        edits.add(T[a].start, T[e].start, ' ' + repl, 'rewrite', 'R7 abstract stmt')
+        log.append({'step': 'R7', 'line': sf.line_of(T[a].start), 'abstracted_unverified': txt.replace(' ', '')[:400], 'replaced_by': repl})
         dropped.append((T[a].start, T[e].start))
 
     # ---- R5: type ascription on a `let` binding (`let mut v = Vec::new()` -> `let mut v: T = ..`).
@@ -968,8 +1014,10 @@ def extract_fn(repo, spec, features):
     body_text = sf.text[body_text_lo:T[bc].start]
     for (where, pat, txt) in spec['proofs']:
         check_ghost_stmt(txt)
+        # an anchor inside a dropped / abstracted region is gone; an `after` anchor may START inside an
+        # abstracted statement (R6/R7) as long as it ENDS behind it (typically on the closing `;`)
         ms = [m for m in re.finditer(pat, body_text)
-              if not any(s <= body_text_lo + m.start() < e for (s, e) in dropped)]
+              if not any(s <= body_text_lo + (m.start() if where == 'before' else m.end() - 1) < e for (s, e) in dropped)]
         if len(ms) != 1:
             raise ExtractError(f'lost anchor: /{pat}/ matches {len(ms)} times in {spec["name"]}')
         off = body_text_lo + (ms[0].start() if where == 'before' else ms[0].end())
